@@ -7,6 +7,7 @@ import (
 	"go/token"
 	"os"
 	"path/filepath"
+	"regexp"
 	"sort"
 	"strings"
 )
@@ -33,6 +34,7 @@ func glueTyped(dir string) (*typedInfo, error) {
 	ifaces := map[string]string{}  // marker method -> interface name
 	impls := map[string][]string{} // marker method -> receiver type expressions
 	hasNewClient, clientSec, serverSec := false, false, false
+	imports := map[string]string{} // package name -> import path, from the files that declare the interfaces
 	ents, _ := os.ReadDir(dir)
 	for _, e := range ents {
 		if !strings.HasSuffix(e.Name(), ".go") || strings.HasSuffix(e.Name(), "_test.go") || strings.HasPrefix(e.Name(), "zz_sim") {
@@ -91,6 +93,14 @@ func glueTyped(dir string) (*typedInfo, error) {
 					if ts.Name.Name != "Handler" && ts.Name.Name != "SecuritySource" {
 						continue
 					}
+					for _, im := range f.Imports {
+						path := strings.Trim(im.Path.Value, `"`)
+						name := path[strings.LastIndex(path, "/")+1:]
+						if im.Name != nil {
+							name = im.Name.Name
+						}
+						imports[name] = path
+					}
 					for _, m := range it.Methods.List {
 						if len(m.Names) != 1 {
 							continue
@@ -125,7 +135,6 @@ func glueTyped(dir string) (*typedInfo, error) {
 		return nil, nil
 	}
 	var sb strings.Builder
-	sb.WriteString("// Written by the verification framework's corpus driver; not generated by ogen.\n\npackage api\n\nimport (\n\t\"context\"\n\t\"net/http\"\n\t\"reflect\"\n\n\tht \"github.com/ogen-go/ogen/http\"\n\t\"github.com/ogen-go/ogen/middleware\"\n)\n\nvar _ context.Context\n\n")
 	sb.WriteString("type simTyped struct {\n\tcb func(ctx context.Context, op string, args []any, res any) error\n\tne func(ctx context.Context, err error, res any)\n}\n\n")
 	info := &typedInfo{}
 	for _, m := range handler {
@@ -163,6 +172,10 @@ func glueTyped(dir string) (*typedInfo, error) {
 	if clientSec {
 		sb.WriteString("type simSrc struct{ fill func(any) }\n\n")
 		for _, m := range source {
+			if strings.TrimSpace(m.results) == "error" {
+				fmt.Fprintf(&sb, "func (s simSrc) %s%s error {\n\treturn nil\n}\n\n", m.name, m.params)
+				continue
+			}
 			inner := strings.TrimSuffix(strings.TrimPrefix(strings.TrimSpace(m.results), "("), ")")
 			i := strings.LastIndex(inner, ",")
 			if i < 0 {
@@ -206,5 +219,23 @@ func glueTyped(dir string) (*typedInfo, error) {
 		sb.WriteString("\tcl, err := NewClient(\"http://sim.test\", WithClient(hc))\n")
 	}
 	sb.WriteString("\tif err != nil {\n\t\treturn nil, nil, err\n\t}\n\treturn srv, cl, nil\n}\n")
-	return info, os.WriteFile(filepath.Join(dir, "zz_sim_typed.go"), []byte(sb.String()), 0o644)
+	body := sb.String()
+	var hd strings.Builder
+	hd.WriteString("// Written by the verification framework's corpus driver; not generated by ogen.\n\npackage api\n\nimport (\n\t\"context\"\n\t\"net/http\"\n\t\"reflect\"\n\n\tht \"github.com/ogen-go/ogen/http\"\n\t\"github.com/ogen-go/ogen/middleware\"\n")
+	var names []string
+	for name := range imports {
+		names = append(names, name)
+	}
+	sort.Strings(names)
+	for _, name := range names {
+		switch name {
+		case "context", "http", "reflect", "ht", "middleware":
+			continue
+		}
+		if regexp.MustCompile(`[^A-Za-z0-9_.]` + regexp.QuoteMeta(name) + `\.[A-Z]`).MatchString(body) {
+			fmt.Fprintf(&hd, "\t%s %q\n", name, imports[name])
+		}
+	}
+	hd.WriteString(")\n\nvar _ context.Context\nvar _ http.Handler\n\n")
+	return info, os.WriteFile(filepath.Join(dir, "zz_sim_typed.go"), []byte(hd.String()+body), 0o644)
 }
